@@ -316,7 +316,10 @@ def check_case(case):
             r.outcome("ok")
     shutil.rmtree(d, ignore_errors=True)
     if case.get("pindex") == 0 and "problem" in case.get("tags", []):
-        numeric_goals_only(r, case)
+        for perm in ((0, 1), (1, 0)):   # both discovery orders of the two agent files
+            with GlobOrder(perm):
+                if not r.fails:
+                    numeric_goals_only(r, case)
         if not r.fails:
             shared_items_in_other_orders(r, case)
         if not r.fails:
@@ -338,7 +341,7 @@ def numeric_goals_only(r, case):
         (d / f"domain-ag{ag}.pddl").write_text(domain_file(where, ag))
         (d / f"prob-ag{ag}.pddl").write_text(
             f"(define (problem madp) (:domain mad)\n(:objects o1 - t1 o2 - t2)\n(:init (p o1) (= (f) 5))\n"
-            f"(:goal (and {goals[ag]} {goals[0] if ag else ''})))\n")
+            f"(:goal (and {goals[ag]} {goals[1] if not ag else ''})))\n")
     out = d / "out"
     out.mkdir()
     path = guard(lambda: MultiAgentDomainsConverter(d).export_combined_domain(add_dummy_actions=False, output_folder=out))
